@@ -24,6 +24,10 @@ PLAN = {
     "C20": [("core", "dev"), ("ctl", "dev")],
 }
 
+# C04 says "either returns a handle satisfying C01/C03 or a clean error": on the request-size suite a malformed or
+# misplaced handle is a C04 violation as well
+ALSO = {"C04": {"sizes": ("C01", "C03")}}
+
 RULES = {
     "C05": ("reopen events (state before close compared with state after open)", lambda st: st.get("reopen", 0)),
     "C09": ("reopen events + mutating calls issued on read-only sessions", lambda st: st.get("reopen", 0)),
@@ -89,9 +93,13 @@ def run(prop, tier, seed):
         drivers += r["drivers"]
         for k, v in r["stats"].items():
             stats_total[k] = stats_total.get(k, 0) + v
+        also = ALSO.get(prop, {}).get(r["suite"], ())
         for v in r["viol"]:
-            if v["prop"] == prop:
+            if v["prop"] == prop or v["prop"] in also:
                 v = dict(v)
+                if v["prop"] != prop:
+                    v["pred"] = "%s.%s" % (v["prop"], v["pred"])
+                    v["prop"] = prop
                 v["sig"] = verdict.signature(v)
                 v["driver_obj"] = (r.get("viol_drivers") or {}).get(v["driver"])
                 viol.append(v)
